@@ -68,3 +68,13 @@ check("C13", "exploration",
       "Every scripted callback failure (16 kinds) is followed by a download with all cookies the exchange set and must not be authenticated, for the cookie and the file session store; successful logins with each user-name claim and varied identity contents must name exactly that user on 20 interleaved follow-up requests; every sampled single-character substitution, truncation and extension of an authenticated cookie and the cookie of an instance with other keys must not be authenticated unless the mutant decodes to identical bytes; thorough adds the 125 s state-expiry probe.",
       "trusted: fake IdP (RS256 tokens built with the standard library); quick tier skips the state-expiry wait",
       "DESIGN.md 4 C13")
+check("C03", "exploration",
+      "runtime monitoring: independent host-policy model over channel-create outcomes of real gateway processes; observers: response status, dial hook events, accept logs of named and decoy listeners (port-1 / port+1), strace -e connect of the gateway process",
+      "Per configuration of host selection x host list x user x authentication kind a real gateway runs under strace; allowed entries and a fixed family of near-misses (ports, dots, case, prefixes, NULs, brackets, IPv6 forms, surrogates, odd-length UTF-16, lying name sizes, another user's entry, the template text) are requested on fresh tunnels, and a second user repeats the first user's requests on the same process; allow means one dial / connect to exactly the requested address landing on the named listener, deny means the resource-access-denied status and no dial event, accept or unexplained connect().",
+      "trusted: lab UTF-16 / policy model, stand-in IdP (sub == preferred_username) and authentication service; in 'any' mode undecodable or over-long names are not judged (what they denote is undefined)",
+      "DESIGN.md 4 C03")
+check("C04", "exploration",
+      "runtime monitoring: client-address oracle over issue/present address pairs against real gateway processes (tokens from the real /connect flow, tunnels from chosen loopback source addresses and X-Forwarded-For headers), dial hook events and backend accept logs",
+      "Full cross product of the address specifications (quick 7, thorough 15) as issuing and presenting address, both settings of the verification switch, both transports, plus legacy tunnels whose OUT and IN connections come from different addresses and sessions roaming between addresses; equal address strings must create the channel on the host's listener, different IPs must be refused with an access-denied status without dial event or accept, verification off must always create.",
+      "trusted: loopback aliases 127.0.0.0/8 as distinct client addresses; same IP in another textual form is recorded, not judged",
+      "DESIGN.md 4 C04")
